@@ -146,3 +146,14 @@ func init() {
 }
 
 var _ = fmt.Sprintf
+
+func init() {
+	// bsor (reflection based object serialisation of tokenized/pkg) is opaque to the engine: the
+	// decode either fails or succeeds leaving the target as it is; the bytes are not interpreted.
+	reg("github.com/tokenized/pkg/bsor.UnmarshalBinary", func(fr *frame, args []value) value {
+		if fr.i.ex.chooseN("bsor.UnmarshalBinary outcome (opaque)", 2) == 0 {
+			return tuple{[]value(nil), mkError(fr, "bsor: opaque decode error")}
+		}
+		return tuple{[]value(nil), iface{}}
+	})
+}
